@@ -11,6 +11,7 @@ import (
 	"path/filepath"
 	"sort"
 	"strings"
+	"syscall"
 	"time"
 
 	"verif/mc/shapes"
@@ -196,6 +197,26 @@ func execCheck(runDir, bin string, args ...string) int {
 	return 2
 }
 
+// progChecks generate and compile programs in fixed directories
+// (work/<id>/<tier>/...) so that identical generated packages hit the build
+// cache; runs of the same check and tier are serialised with a file lock.
+var progChecks = map[string]bool{"C05": true, "C14": true, "C15": true}
+
+func lockFor(id, tier string) func() {
+	if !progChecks[id] {
+		return func() {}
+	}
+	os.MkdirAll(filepath.Join(mcDir, "work"), 0o755)
+	f, err := os.OpenFile(filepath.Join(mcDir, "work", strings.ToLower(id)+"."+tier+".lock"), os.O_CREATE|os.O_RDWR, 0o644)
+	if err != nil {
+		die("%v", err)
+	}
+	if err := syscall.Flock(int(f.Fd()), syscall.LOCK_EX); err != nil {
+		die("flock: %v", err)
+	}
+	return func() { syscall.Flock(int(f.Fd()), syscall.LOCK_UN); f.Close() }
+}
+
 func cleanStale() {
 	// remove run directories older than 6 hours left behind by killed runs
 	ents, _ := os.ReadDir(filepath.Join(mcDir, "work"))
@@ -246,9 +267,25 @@ func main() {
 			}
 		}
 		cleanStale()
+		unlock := lockFor(id, tier)
 		runDir, bin := prepare(id, tier)
+		if progChecks[id] && tier == "thorough" {
+			// ~10^5 throw-away packages: keep them out of the user's build cache
+			gc := filepath.Join(mcDir, "work", strings.ToLower(id)+"-gocache")
+			os.RemoveAll(gc)
+			os.Setenv("VERIF_SCRATCH_GOCACHE", gc)
+			defer os.RemoveAll(gc)
+		}
 		code := execCheck(runDir, bin, "-tier", tier)
 		os.RemoveAll(runDir)
+		if gc := os.Getenv("VERIF_SCRATCH_GOCACHE"); gc != "" {
+			exec.Command("chmod", "-R", "u+w", gc).Run()
+			os.RemoveAll(gc)
+		}
+		if progChecks[id] {
+			os.RemoveAll(filepath.Join(mcDir, "work", strings.ToLower(id), tier))
+		}
+		unlock()
 		os.Exit(code)
 	case "replay":
 		if len(os.Args) < 3 {
